@@ -41,7 +41,8 @@ def observe(c, want=("tables", "dstate", "dxdtf", "euler")):
     desc = c["desc"]
     o = {}
     state = U.UnitArray(list(c["state"]), U.Units(sysgen.py_sys(U, c["state_units"]), U.UnitsDimensions(quantity=1)))
-    system = sysgen.build_system(strengths, desc, state=state, chemostats=[int(b) for b in c["chs"]])
+    kw = {} if c.get("chs_from_species") else {"chemostats": [int(b) for b in c["chs"]]}     # else: the species' own flags decide
+    system = sysgen.build_system(strengths, desc, state=state, **kw)
     ue = sysgen.py_sys(U, c["ue"])
     reactions = split_reactions(system.network)
     if "tables" in want:
